@@ -1,6 +1,9 @@
 """Helpers shared by the history checks: drive fastparquet's public API on a
 SimFS, read a dataset back through a *fresh* handle, list what the summary
 metadata references - and a plain reference model of a dataset's content."""
+import os
+import pickle
+
 import fastparquet
 from fastparquet import ParquetFile, write
 
@@ -89,9 +92,51 @@ def referenced_files(pf):
     return out
 
 
+class ReaderCrashed(Exception):
+    """The reader killed the interpreter (signal) on this dataset."""
+
+
 def read_all(fs, path):
     """Fresh open + full read.  Returns dict(canon, cols, nrg, nrows, files,
-    dtkinds)."""
+    kinds).  With VERIF_ISOLATE=1 the read happens in a forked child so that a
+    reader that crashes the interpreter on damaged bytes is reported as an
+    unreadable dataset instead of taking the harness down."""
+    if os.environ.get('VERIF_ISOLATE') != '1':
+        return _read_all(fs, path)
+    r, w = os.pipe()
+    pid = os.fork()
+    if pid == 0:
+        code = 0
+        try:
+            os.close(r)
+            try:
+                out = ('ok', _read_all(fs, path))
+            except BaseException as e:
+                out = ('exc', type(e).__name__, str(e))
+            with os.fdopen(w, 'wb') as f:
+                pickle.dump(out, f)
+        except BaseException:
+            code = 3
+        finally:
+            os._exit(code)
+    os.close(w)
+    with os.fdopen(r, 'rb') as f:
+        blob = f.read()
+    _, status = os.waitpid(pid, 0)
+    if os.WIFSIGNALED(status):
+        raise ReaderCrashed('reader crashed the interpreter with signal %d'
+                            % os.WTERMSIG(status))
+    out = pickle.loads(blob)
+    if out[0] == 'ok':
+        return out[1]
+    raise ReaderFailed('%s: %s' % (out[1], out[2]))
+
+
+class ReaderFailed(Exception):
+    """Exception raised by the reader inside the isolated child."""
+
+
+def _read_all(fs, path):
     pf = ParquetFile(path, fs=fs)
     df = pf.to_pandas()
     canon = frames.canon_frame(df)
